@@ -143,13 +143,21 @@ def run_tlc(module, cfg, workdir, env=None, workers=None, simulate=None, depth=N
     t0 = time.time()
     res = TLCResult()
     res.cmd = " ".join(cmd)
-    try:
-        p = subprocess.run(cmd, cwd=SPEC, env=e, stdout=subprocess.PIPE, stderr=subprocess.STDOUT,
-                           timeout=timeout, text=True)
-    except subprocess.TimeoutExpired:
-        raise MachineryError("TLC timed out after %ss: %s" % (timeout, res.cmd))
+    for attempt in range(3):
+        try:
+            p = subprocess.run(cmd, cwd=SPEC, env=e, stdout=subprocess.PIPE, stderr=subprocess.STDOUT,
+                               timeout=timeout, text=True)
+        except subprocess.TimeoutExpired:
+            raise MachineryError("TLC timed out after %ss: %s" % (timeout, res.cmd))
+        out = p.stdout
+        # TLC 1.8 occasionally fails inside its own value classes when several workers normalise a shared record
+        # ("Field name .. occurs multiple times in record"): a tool race, not a verdict - the run is repeated
+        if "TLC threw an unexpected exception" in out and "java.lang.RuntimeException" in out and attempt < 2:
+            if os.path.isdir(meta):
+                shutil.rmtree(meta)
+            continue
+        break
     res.wall = time.time() - t0
-    out = p.stdout
     res.stdout = out
     with open(os.path.join(workdir, "tlc-" + tag + ".out"), "w") as f:
         f.write(out)
